@@ -510,10 +510,10 @@ def _tdir():
     return _TDIR[pid]
 
 
-def _target_info(d):
+def _target_info(d, names=('foo', 'bar')):
     rw = R.Rewriter(d)
     rw.analyze_meson()
-    for t in ('foo', 'bar'):
+    for t in names:
         rw.process({'type': 'target', 'target': t, 'operation': 'info'})
     ti = rw.info_dump['target']
     return {v['name']: list(v['sources']) for v in ti.values()}
@@ -538,10 +538,18 @@ def ob_target_edit():
         d = _tdir()
         fu = FOO_USES[choose(len(FOO_USES), 'foo_uses')]; bu = BAR_USES[choose(len(BAR_USES), 'bar_uses')]
         op, names = TARGET_OPS[choose(len(TARGET_OPS), 'operation')]
-        text = "project('p')\ncommon = ['main.c', 'util.c']\nextra = files('x.c')\nexecutable('foo', %s)\nexecutable('bar', %s)\n" % (fu, bu)
+        # the OTHER target may have a name only the real interpreter can compute: it still is a target that shares the list
+        dyn = choose(2, 'the other target has a computed name') == 1
+        text = "project('p')\ncommon = ['main.c', 'util.c']\nextra = files('x.c')\nexecutable(%s, %s)\nexecutable('bar', %s)\n" % ("'foo-' + host_machine.system()" if dyn else "'foo'", fu, bu)
         with open(os.path.join(d, 'meson.build'), 'w') as f: f.write(text)
-        before = _target_info(d)
+        tnames = ('bar',) if dyn else ('foo', 'bar')          # a target whose name is computed cannot be addressed by the rewriter
+        before = _target_info(d, tnames)
         before_real = _real_targets(d)
+        if dyn:
+            fk = [k for k in before_real if k.startswith('foo-')]
+            check(len(fk) == 1, 'harness: the computed name'); 
+            if len(fk) != 1: return
+            before_real['foo'] = before_real[fk[0]]; before.setdefault('foo', None)
         asked = list(names)
         if len(names) > 1:
             # a command naming several files does what the one-file commands do together: a file whose one-file command is refused (e.g. it sits in a
@@ -560,16 +568,17 @@ def ob_target_edit():
         rw.apply_changes()
         new_text = open(os.path.join(d, 'meson.build')).read()
         try:
-            after = _target_info(d)
+            after = _target_info(d, tnames)
         except Exception:
             check(False, 'the edited file can still be analysed'); return
-        check(after['foo'] == before['foo'], 'the other target keeps exactly its sources')
+        check(after.get('foo') == before['foo'], 'the other target keeps exactly its sources')
         want = set(before['bar']) | set(names) if op == 'src_add' else set(before['bar']) - set(names)
         try:
             real = _real_targets(d)
         except Exception:
             check(False, 'the rewritten build file still evaluates (real interpreter)'); return
-        check(set(real['foo'][0]) == set(before_real['foo'][0]), 'the other target keeps exactly its sources (real interpreter)')
+        if dyn and fk[0] in real: real['foo'] = real[fk[0]]
+        check('foo' in real and set(real['foo'][0]) == set(before_real['foo'][0]), 'the other target keeps exactly its sources (real interpreter)')
         if new_text != text:
             rwant = set(before_real['bar'][0]) | set(names) if op == 'src_add' else set(before_real['bar'][0]) - set(names)
             check(set(real['bar'][0]) == rwant, 'the addressed target has exactly the requested sources (real interpreter)')
